@@ -1,6 +1,7 @@
 (* C12 — preprocessing never reverses a preference between two alternatives. *)
 From Coq Require Import ZArith QArith List Bool Arith.
-From SKC Require Import Base.QBool Base.QList Model.Dominance Model.Transform Theory.OrderPres.
+From SKC Require Import Base.QBool Base.QList Model.Dominance Model.Transform Theory.Dominance Theory.OrderPres
+  Theory.PipelinePerm Theory.PipelineOrder.
 Import ListNotations.
 
 Theorem C12_increasing_map_keeps_every_preference : forall (P : Q -> Prop) f mx v i j,
@@ -74,6 +75,33 @@ Theorem C12_pointwise_preferences_give_equal_profiles : forall objs ra rb objs' 
   prefs objs ra rb = prefs objs' ra' rb'.
 Proof. exact prefs_pointwise. Qed.
 Print Assumptions C12_pointwise_preferences_give_equal_profiles.
+
+(* ---- whole matrices and pipelines ---------------------------------------------------------------------------- *)
+(* one matrix-target step: every pair of alternatives keeps its whole preference profile (criterion by criterion) *)
+Theorem C12_matrix_scaler_keeps_every_preference : forall m f objs rows a b,
+  length objs = m -> rect m rows -> (a < length rows)%nat -> (b < length rows)%nat ->
+  (forall j, (j < m)%nat -> keeps_order (nth j objs true) f (col rows j)) ->
+  prefs objs (nth a (on_matrix m f rows) []) (nth b (on_matrix m f rows) []) =
+  prefs objs (nth a rows []) (nth b rows []).
+Proof. exact scaled_matrix_keeps_every_preference. Qed.
+Print Assumptions C12_matrix_scaler_keeps_every_preference.
+
+(* any finite chain of such steps (each order preserving on the columns it actually meets): the dominance relation
+   between every pair of alternatives is the same before and after *)
+Theorem C12_scaler_chain_keeps_dominance : forall strict m objs fs rows a b,
+  length objs = m -> rect m rows -> (a < length rows)%nat -> (b < length rows)%nat ->
+  chain_keeps_order m objs fs rows ->
+  dom_spec strict objs (nth a (scale_all m fs rows) []) (nth b (scale_all m fs rows) []) =
+  dom_spec strict objs (nth a rows []) (nth b rows []).
+Proof. exact scaler_chain_keeps_dominance. Qed.
+Print Assumptions C12_scaler_chain_keeps_dominance.
+
+Theorem C12_rational_scalers_are_such_steps : forall mx v,
+  (0 < qsum v -> keeps_order mx sum_scale v) /\ keeps_order mx maxabs_scale v /\
+  (forall lo hi, lo < hi -> keeps_order mx (minmax_scale lo hi) v) /\ keeps_order mx push_neg v /\
+  (forall e, keeps_order mx (add_zero e) v).
+Proof. exact rational_scalers_keep_order. Qed.
+Print Assumptions C12_rational_scalers_are_such_steps.
 
 Example C12_example :
   better false 2 3 = true /\ better true (- (2)) (- (3)) = true /\ better true (/ 2) (/ 3) = true /\
